@@ -1,6 +1,7 @@
 package worlds
 
 import (
+	"reflect"
 	"bytes"
 	"crypto/rand"
 	"fmt"
@@ -13,6 +14,7 @@ import (
 	"github.com/shutter-network/shutter/shlib/shcrypto"
 
 	"github.com/shutter-network/rolling-shutter/rolling-shutter/keyper/shutterevents"
+	"github.com/shutter-network/rolling-shutter/rolling-shutter/keyper/smobserver"
 
 	"verif/sim/simkit"
 	"verif/sim/simtm"
@@ -357,8 +359,34 @@ func runC14(r *simkit.Run) {
 		}()
 		return shutterevents.MakeEvent(ev, h)
 	}
+	// everything that went over the wire at one height, for the driver-level check below
+	blockH := int64(c.Intn(1000, "block-height"))
+	var blockEvents []abcitypes.Event
+	var blockWant []shutterevents.IEvent
+	note := func(ev abcitypes.Event, h int64, dec shutterevents.IEvent, err error) {
+		if h != blockH {
+			return
+		}
+		blockEvents = append(blockEvents, ev)
+		if err == nil {
+			blockWant = append(blockWant, dec)
+		}
+	}
 	for i := 0; i < n; i++ {
-		h := int64(c.Intn(1000, "height"))
+		h := blockH
+		if c.Chance(300, "other-height") {
+			h = int64(c.Intn(1000, "height"))
+		}
+		if c.Chance(100, "foreign-event") {
+			// events of other modules / unknown types are skipped by the observer
+			ev := abcitypes.Event{Type: simkit.Pick(c, []string{"tx", "message", "shutter.unknown", ""}, "foreign-type"),
+				Attributes: []abcitypes.EventAttribute{{Key: "k", Value: string(c.Bytes(c.Intn(4, "foreign-len"), "foreign-val"))}}}
+			dec, err := guardDecode(ev, h)
+			if err == nil {
+				r.Fail("event-mis-decoded", ev.Type, "an event of unknown type %q was accepted as %v", ev.Type, dec)
+			}
+			note(ev, h, dec, err)
+		}
 		in, boundary := genEvent(c, h)
 		wire := transport(in.MakeABCIEvent())
 		r.Eventf("event %s", in.String())
@@ -369,6 +397,7 @@ func runC14(r *simkit.Run) {
 		if ok, why := sameEvent(in, out); !ok {
 			r.Fail("event-mis-decoded", wire.Type, "event %s decodes to %s (%s)", in.String(), out.String(), why)
 		}
+		note(wire, h, out, nil)
 		r.Probe("events-roundtripped")
 		if boundary {
 			r.Nontrivial = true
@@ -380,6 +409,7 @@ func runC14(r *simkit.Run) {
 			r.Fault("rpc.tm_corrupt_event")
 			got, err := guardDecode(transport(bad), h)
 			r.Eventf("corrupt (%s) -> err=%v", how, err != nil)
+			note(transport(bad), h, got, err)
 			if err == nil {
 				r.Probe("corrupted-accepted")
 				r.Nontrivial = true
@@ -409,6 +439,32 @@ func runC14(r *simkit.Run) {
 			}
 		}
 	}
+	// the observer's driver turns a block's events into the list handed to the state machine:
+	// exactly the well-formed ones, in order, each a usable value; malformed ones are skipped
+	func() {
+		defer func() {
+			if e := recover(); e != nil {
+				r.Fail("event-decoder-panic", "makeEvents", "the observer's makeEvents panicked on a block with %d events: %v", len(blockEvents), e)
+			}
+		}()
+		got := smobserver.VerifMakeEvents(blockH, blockEvents)
+		if len(got) != len(blockWant) {
+			r.Fail("malformed-event-not-skipped", "makeEvents", "block with %d events of which %d are well-formed: the observer hands %d events to the state machine", len(blockEvents), len(blockWant), len(got))
+		}
+		for i := range got {
+			if got[i] == nil || reflect.ValueOf(got[i]).Kind() == reflect.Ptr && reflect.ValueOf(got[i]).IsNil() {
+				r.Fail("malformed-event-not-skipped", "makeEvents", "the observer hands a nil %T event to the state machine (position %d)", got[i], i)
+			}
+			_ = got[i].String()
+			if ok, why := sameEvent(blockWant[i], got[i]); !ok {
+				r.Fail("event-mis-decoded", "makeEvents", "observer event %d is %s, expected %s (%s)", i, got[i].String(), blockWant[i].String(), why)
+			}
+		}
+		r.Probe("observer-blocks")
+		if len(blockEvents) > len(blockWant) {
+			r.Probe("observer-blocks-with-malformed")
+		}
+	}()
 	r.Sample["events"] = n
 }
 
